@@ -25,7 +25,7 @@ import (
 )
 
 func runEnterLeave(r *vk.Run) {
-	n := r.Pick(3000, 100000)
+	n := r.Pick(3000, 300000)
 	for i := 0; i < n; i++ {
 		if !r.Mine(i) {
 			continue
